@@ -244,7 +244,7 @@ def run_pw(ctx):
     r = ctx.rng
     reqs, codes, cases = [], [], []
     for _ in range(ctx.n(200, 5000)):
-        front = str(r.choice(['ro', 'dro', 'droE']))
+        front = str(r.choice(['ro', 'dro', 'droE', 'droEafter']))
         ismin = bool(r.random() < 0.5)
         pcs = [[float(r.choice([-1., 0., 1., 2.])), float(r.choice([-2., 1., 0.5, 3.]))] for _ in range(int(r.integers(2, 4)))]
         ops = [o for o in gen_chain(r) if not (o[0] == 'scale' and o[1] == '0')][:5]
@@ -263,6 +263,8 @@ def run_pw(ctx):
             if front == 'droE':
                 pw = rso.E(pw)
             pw = apply_chain(pw, ops, w)
+            if front == 'droEafter':
+                pw = rso.E(pw)                      # the expectation of the already negated / scaled / shifted expression
             wcol = int(w.first)
             pieces = []
             for p in pw.pieces:
